@@ -60,7 +60,18 @@ class C11(Mon):
         info = dict(info, message=cmd, in_effect=[getattr(r[0], "label", None) for r in self.records], **getattr(sc, "info", {}))
         if cmd == "_start_suspender":
             # (also an overlapping one: it is stacked on top and completes first)
-            self.records = self.records + ((self.condition_of(m), m.args[1] if len(m.args) > 1 else None, "started", m.args[0] if m.args else None),)
+            # the pre / post plans are those REQUESTED together with this condition (the roles as the environment gave them to request_suspend,
+            # not as the message happens to carry them); several requests may share a condition: they start in some order, any match will do
+            c = self.condition_of(m)
+            cands = [r for r in getattr(sc, "suspensions", []) if not r["started"] and r["cond"] is c]
+            mine = [r for r in cands if r["pre"] is not None and any(a is r["pre"] or a is r["post"] for a in m.args[:2])]
+            req = (mine or cands or [None])[0]
+            if req is not None:
+                req["started"] = True
+                pre, post = req["pre"], req["post"]
+            else:
+                pre, post = (m.args[0] if m.args else None), (m.args[1] if len(m.args) > 1 else None)
+            self.records = self.records + ((c, post, "started", pre),)
             self.phase = "started"
             return
         if cmd == "_resume_from_suspender":
@@ -105,7 +116,7 @@ class C11(Mon):
 
     def __call__(self, kind, *a):
         w, sc, I = self.w, self.sc, self.I
-        info = {"requests": list(sc.requests), "replay": "lifecycle.replay", "phase": self.phase}
+        info = {"requests": list(sc.requests), "replay": "lifecycle.replay", "phase": self.phase, **getattr(sc, "info", {})}
         if kind == "call" and a[0] == "__call__":
             self.phase, self.moved, self.stopped_after_move = None, False, True
             self.records = ()
